@@ -1026,7 +1026,7 @@ class EdgeQLSourceGenerator(codegen.SourceGenerator):
                                 ''
                             )
                             return (
-                                typeutils.not_none(c.name.itemclass),
+                                c.name.itemclass or '',
                                 c.name.name,
                                 subject_expr,
                                 except_expr,
@@ -1044,7 +1044,7 @@ class EdgeQLSourceGenerator(codegen.SourceGenerator):
                                 ''
                             )
                             return (
-                                typeutils.not_none(c.name.itemclass),
+                                c.name.itemclass or '',
                                 c.name.name,
                                 expr,
                                 except_expr,
